@@ -145,7 +145,11 @@ def profiles_for(pid, tier):
                                       w_malformed=3), N(100, 800))],
         "C18": [("configs", dict(three, w_list=8, w_allocate=8), N(100, 800))],
     }
-    return P.get(pid, [])
+    profs = P.get(pid, [])
+    if not q and profs:
+        L = 3 if pid in ("C06", "C10", "C11", "C14", "C18") else 4     # two-run oracles cost several runs per history
+        profs = profs + [("exhaustive-%d" % L, dict(_special="exhaustive", L=L, _exhaustive=True), len(EXH_SYMBOLS) ** L)]
+    return profs
 
 
 def special_history(pid, profile, seed):
@@ -192,6 +196,8 @@ def special_history(pid, profile, seed):
             h.append({"op": "recv", "c": c, "t": t + j, "msg": {"type": "allocate"}, "fresh": "g%d" % j,
                       "pick": r.randrange(1000), "draws": draws})
         return h, {}
+    if kind == "exhaustive":
+        return exhaustive_history(profile["L"], profile["_index"]), {}
     if kind == "late-claim":
         # allocate, the nameplate is retired behind the allocator's back, somebody re-creates the
         # name, and only then the allocator claims it
@@ -239,6 +245,65 @@ def special_history(pid, profile, seed):
               {"op": "recv", "c": c1 + 2, "t": t2 + 40, "msg": {"type": "list"}}]
         return h, {}
     raise ValueError(kind)
+
+
+EXH_SYMBOLS = [(k, a) for k in (1, 2) for a in ("claim", "release", "open", "add", "close", "reconnect")] + \
+              [(3, "claim"), (3, "open"), (0, "sweep-soon"), (0, "sweep-late"), (0, "restart")]
+
+
+def exhaustive_history(L, index):
+    """the index-th word of length L over EXH_SYMBOLS (three connections of sides s1 s2 s3 in one app, one
+    nameplate, the mailbox it leads to, sweeps before/after expiry, restart), as a history"""
+    word = []
+    x = index
+    for _ in range(L):
+        word.append(EXH_SYMBOLS[x % len(EXH_SYMBOLS)])
+        x //= len(EXH_SYMBOLS)
+    E = info()["expirationTicks"]
+    t = 8000
+    h = [{"op": "cfg", "rebooted": t, "usage": True, "allow_list": True, "blur": None}]
+    cid = {1: 1, 2: 2, 3: 3}
+    gen = {1: 0, 2: 0, 3: 0}
+
+    def join(k):
+        h.append({"op": "connect", "c": cid[k]})
+        h.append({"op": "recv", "c": cid[k], "t": t, "msg": {"type": "bind", "appid": "a", "side": "s%d" % k}})
+    for k in (1, 2, 3):
+        join(k)
+    first_claim = None
+    for pos, (k, a) in enumerate(word):
+        t += 8
+        target = first_claim or "m"
+        if a == "claim":
+            f = "f%d" % pos
+            first_claim = first_claim or f
+            h.append({"op": "recv", "c": cid[k], "t": t, "msg": {"type": "claim", "nameplate": "1"}, "fresh": f})
+        elif a == "release":
+            h.append({"op": "recv", "c": cid[k], "t": t, "msg": {"type": "release", "nameplate": "1"}})
+        elif a == "open":
+            h.append({"op": "recv", "c": cid[k], "t": t, "msg": {"type": "open", "mailbox": target}})
+        elif a == "add":
+            h.append({"op": "recv", "c": cid[k], "t": t, "msg": {"type": "add", "phase": "p%d" % pos, "body": "00"}})
+        elif a == "close":
+            h.append({"op": "recv", "c": cid[k], "t": t, "msg": {"type": "close", "mailbox": target, "mood": "happy"}})
+        elif a == "reconnect":
+            h.append({"op": "drop", "c": cid[k]})
+            gen[k] += 1
+            cid[k] = k + 10 * gen[k]
+            join(k)
+        elif a == "sweep-soon":
+            t += 60 * proto.TICKS
+            h.append({"op": "sweep", "now": t, "fault": False})
+        elif a == "sweep-late":
+            t += E + proto.TICKS
+            h.append({"op": "sweep", "now": t, "fault": False})
+        elif a == "restart":
+            h.append({"op": "restart", "t": t})
+            for kk in (1, 2, 3):
+                gen[kk] += 1
+                cid[kk] = kk + 10 * gen[kk]
+                join(kk)
+    return h
 
 
 # ----------------------------------------------------------------------------------- oracles
